@@ -76,6 +76,25 @@ def _targets_one(env: P.Env, t, base: dict, ordered: bool, backend: str) -> list
                 diffs.append(dict(kind="colexpr_export_differs", column=name, got=vals[:6], expected=exp[:6]))
     except Exception as e:  # noqa: BLE001
         diffs.append(dict(kind="target_error", target="ColExpr.export", exc=P.exc_class(e), msg=str(e)[:150]))
+    # … and through the Pandas target: a Series of the same length (a one-row result is still a Series), same values
+    if backend == "polars":
+        try:
+            import pandas as pd
+
+            for name in base["names"][:3]:
+                ps = t[name].export(pdt.Pandas())
+                if not isinstance(ps, pd.Series):
+                    diffs.append(dict(kind="colexpr_export_differs", column=name, target="pandas", got=f"{type(ps).__name__}", expected="pandas.Series",
+                                      nrows=len(base["rows"])))
+                    continue
+                vals = [P.encode_val(None if pd.isna(x) else (x.item() if hasattr(x, "item") else x)) for x in ps.tolist()]
+                exp = [r[base["names"].index(name)] for r in base["rows"]]
+                if not ordered:
+                    vals, exp = sorted(vals, key=lambda x: oracle.sort_key([x])), sorted(exp, key=lambda x: oracle.sort_key([x]))
+                if len(vals) != len(exp) or not all(oracle.cell_eq(a, b) for a, b in zip(vals, exp)):
+                    diffs.append(dict(kind="colexpr_export_differs", column=name, target="pandas", got=vals[:6], expected=exp[:6]))
+        except Exception as e:  # noqa: BLE001
+            diffs.append(dict(kind="target_error", target="ColExpr.export(Pandas)", exc=P.exc_class(e), msg=str(e)[:150]))
     # expression mixing a reference taken from an ancestor table with one of the final table (ancestor first)
     try:
         tid = [k_ for k_, v_ in env.tables.items() if v_ is t][0]
